@@ -404,7 +404,7 @@ def gen_extra(ctx):
             for form in coord_forms:
                 yield h, w, l, form
     for (h, w) in SMALL + S5:
-        for _ in range(30 if T else 8):
+        for _ in range(60 if T else 20):
             yield h, w, rand_coords(h, w, rng), rng.choice(ONE_SHOT)
     # -- class 2: run-time ints far outside the small-int cache, long axes
     nsl, nb = (120, 600) if T else (40, 150)
@@ -428,7 +428,7 @@ def gen_extra(ctx):
                 l.insert(rng.randint(0, len(l)), (rng.choice(yi), rng.choice(xi)))
             yield h, w, l, rng.choice(coord_forms)
     # -- class 5: larger shapes, steps up to +-5, both axes non-trivial
-    n5 = 6000 if T else 1200
+    n5 = 8000 if T else 2500
     for (h, w) in S5:
         def full_rev(n, s):
             return [slice(None, None, s), slice(n - 1, None, s), slice(-1, -n - 1, s), slice(n + 3, -n - 3, s)]
@@ -460,7 +460,7 @@ def gen_extra(ctx):
     bnd = [None] + list(range(-7, 8))
     nt = [-3, -2, -1, 2, 3]
     for (h, w) in SMALL:
-        for _ in range(1500 if T else 300):
+        for _ in range(2000 if T else 600):
             yield h, w, (slice(rng.choice(bnd), rng.choice(bnd), rng.choice(nt)),
                          slice(rng.choice(bnd), rng.choice(bnd), rng.choice(nt))), None
     # -- class 6: bool / int-subclass / __index__ keys
@@ -470,7 +470,7 @@ def gen_extra(ctx):
             yield h, w, ky, "bool"
             for kx in ax:
                 yield h, w, (ky, kx), "bool"
-    for _ in range(6000 if T else 1500):
+    for _ in range(12000 if T else 4000):
         h, w = rng.choice(SMALL + S5)
         k = rand_key2(h, w, rng)
         if isinstance(k, list):
@@ -483,7 +483,7 @@ def gen_chains(ctx):
     """chained indexing a[k1][k2] (k1 selects an array): yields (h, w, k1, k2, dim of a[k1], expected)."""
     rng = ctx.rng
     shapes = [s for s in SMALL + S5 if s[0] and s[1]]
-    n = 12000 if ctx.thorough else 3000
+    n = 20000 if ctx.thorough else 6000
     for _ in range(n):
         h, w = rng.choice(shapes)
         k1 = rand_key2(h, w, rng)
@@ -891,7 +891,6 @@ def search(ctx):
                 ctx.violation("construct:%dx%d:%s" % (h, w, form), "an array built from nested iterables is not that list of lists",
                               {"check": "construct", "shape": [h, w], "form": form, "problems": [repr(p) for p in probs[:5]]})
     # malformed coordinate entries: outside the model; the carrier of the entries must not matter
-    from cspuz.array import Array1D
     arr, data = mk_array(2, 3, "bool")
     idx = {id(e): i for i, e in enumerate(data)}
     for mi, l in enumerate(MALFORMED):
@@ -899,9 +898,9 @@ def search(ctx):
         for form in STRUCT_FORMS:
             ctx.prop_case("malformed-form-vs-list", (mi, form))
             got = norm_raw(raw_get(arr, COORD_FORMS[form](list(l))), idx)
-            if got != ref or got[0] == "ok":
+            if got != ref:
                 ctx.violation("malformed:%d:%s" % (mi, form), "an index array with a malformed entry behaves differently when "
-                              "given as %s than as a list (or is accepted)" % form,
+                              "given as %s than as a list" % form,
                               {"check": "malformed", "shape": [2, 3], "entries": repr(l), "form": form,
                                "as_list": ref, "as_form": got})
 
@@ -940,7 +939,7 @@ def replay(ctx, rp):
         ref = norm_raw(raw_get(arr, list(l)), idx)
         got = norm_raw(raw_get(arr, COORD_FORMS[v["form"]](list(l))), idx)
         print("as list:", ref, " as", v["form"], ":", got)
-        return 1 if got != ref or got[0] == "ok" else 0
+        return 1 if got != ref else 0
     k = _unkk(eval(v["key"], {"slice": slice}))
     form = v.get("form")
     if check == "1d":
